@@ -64,6 +64,7 @@ def r6_views(run, tree):
     from . import core_folds as cf
     cf.check_vector_unary_and_maps(run, tree)
     cf.check_group_copy(run, tree)
+    cf.check_group_slice_views(run, tree)
 
 
 def r7_end_to_end(run, tree):
@@ -73,6 +74,7 @@ def r7_end_to_end(run, tree):
     from . import quantity_stack as qs
     qs.check_inplace_stack(run, tree)
     qs.check_inplace_mixed_stack(run, tree)
+    qs.check_vector_lifting_stack(run, tree)       # v op= y: what the name and every older reference hold afterwards (values AND unit)
 
 
 def r_conversion_history(run, tree):
